@@ -20,7 +20,7 @@ Definition c29_leak (c : pcase) : bool := (i_status c =? 0) && (0 <? i_live c).
 Definition c29_hang (c : pcase) : bool := (i_status c =? 2) && (i_blk c =? 1) && (i_wr c =? 0) && (i_q c =? 0).
 
 (* 0 agree & holds; 1 differ & holds; 2 fails outside the known finding (this includes a caller asleep for ever in the completion
-   latch, repaired in /repo 1a07319); 4 the known leak: inside its domain AND exactly the payloads the model predicts (tasks skipped
+   latch, repaired in /repo 0db1b9f); 4 the known leak: inside its domain AND exactly the payloads the model predicts (tasks skipped
    by the cancelled wrapper / stranded in a queue) *)
 Definition judge_c29 (c : pcase) : Z :=
   if negb (c29_basic c) then 2
